@@ -265,23 +265,24 @@ class KconfigExpression(Token):
         """
         Parse an AND expression: expr && expr && ...
         """
-        return self._parse_binary_op(tokens, pos_idx, ("&&",), self._parse_cmp)
-
-    def _parse_cmp(self, tokens: List[str], pos_idx: int) -> Tuple:
-        """
-        Parse a comparison expression: expr (= | != | < | > | <= | >=) expr.
-        """
-        return self._parse_binary_op(tokens, pos_idx, self._cmp_operators, self._parse_unary)
+        return self._parse_binary_op(tokens, pos_idx, ("&&",), self._parse_unary)
 
     def _parse_unary(self, tokens: List[str], pos_idx: int) -> Tuple:
         """
         Parse a unary negation (right-associative): !expr
+        The operands of a comparison are plain symbols, so "!A = y" means "!(A = y)" (as in parser v1).
         """
         if pos_idx < len(tokens) and tokens[pos_idx] == "!":
             pos_idx += 1
             operand, pos_idx = self._parse_unary(tokens, pos_idx)
             return ["!", operand], pos_idx
-        return self._parse_atom(tokens, pos_idx)
+        return self._parse_cmp(tokens, pos_idx)
+
+    def _parse_cmp(self, tokens: List[str], pos_idx: int) -> Tuple:
+        """
+        Parse a comparison expression: expr (= | != | < | > | <= | >=) expr.
+        """
+        return self._parse_binary_op(tokens, pos_idx, self._cmp_operators, self._parse_atom)
 
     def _parse_atom(self, tokens: List[str], pos_idx: int) -> Tuple:
         """
